@@ -2577,3 +2577,31 @@ def r12_23(rep):
                       "only %d attempt(s)%s%s before `%s`: a selector piece that is a keyword which cannot be raw (`_`, `self`, `crate`, ..) "
                       "panics" % (len(attempts), "" if raw else ", no raw form", "" if suffix else ", no `name_` form", c["name"]), b.loc(c))
     rep.need(n >= 1, "parse_str::<Ident> chains ending in expect/unwrap in ir/objc.rs")
+
+
+@RULES.rule("R12.24", "a bit width is only handed to libclang's evaluator after the expression AND its parts were checked for template parameters", floor=2)
+def r12_24(rep):
+    """`clang_getFieldDeclBitWidth` crashes (SIGSEGV, no unwinding) on a value-dependent width.  `Cursor::bit_width` therefore asks
+    `is_dependent_on_template_parameter` of the width expression first.  That test has to cover the expression node itself - is it a
+    parameter, does it REFER to one (`int x : N;` is a bare DeclRefExpr without children) - and then its children; before the fix the
+    second question was only asked of the children."""
+    prog = rep.prog
+    bw = rep.need(prog.fn("clang::Cursor::bit_width"), "clang::Cursor::bit_width")
+    ev = [c for c in bw.calls(lambda x: x["k"] == "Call" and (x.get("callee") or "").endswith("clang_getFieldDeclBitWidth"))]
+    rep.need(ev, "clang_getFieldDeclBitWidth in Cursor::bit_width")
+    for c in ev:
+        ok = any(kind == "cond" and not pol and "is_dependent_on_template_parameter" in bw.canon(g, 8) for pol, kind, g in bw.guards(c, nested=True))
+        rep.check(ok, "evaluator-behind-dependence-test", "reached only when the width expression is not dependent" if ok else
+                  "the evaluator is called without the dependence test in front of it", bw.loc(c))
+    b = rep.need(prog.fn("clang::Cursor::is_dependent_on_template_parameter"), "clang::Cursor::is_dependent_on_template_parameter")
+    selfp = b.params[0].get("id") if b.params else None
+    own = []
+    for c in b.calls(lambda x: x["k"] == "MCall" and x["name"] == "referenced"):
+        r = strip(c["recv"])
+        if r.get("k") == "Local" and r.get("id") == selfp:
+            own.append(c)
+    visits = [c for c in b.calls(lambda x: x["k"] == "MCall" and x["name"] == "visit") if strip(c["recv"]).get("id") == selfp]
+    ok = bool(own) and bool(visits) and min(c["_i"] for c in own) < min(c["_i"] for c in visits)
+    rep.check(ok, "own-referent-checked", "`self.referenced()` is examined before the children are visited" if ok else
+              "the expression's own referent is never examined: `int x : N;` (a bare reference to the parameter, no children) passes as "
+              "non-dependent and libclang's evaluator crashes on it", b.loc(b.root))
